@@ -437,6 +437,14 @@ def core_preconditions():
     out.append(("P1", ["and", ["p", "?x"], [">=", ["f", "?x"], ["f", "k"]]]))
     out.append(("P3", ["and", ["q", "?x", "?y"], ["not", ["=", "?x", "?y"]]]))
     out.append(("P3", ["and", ["forall", ["?z", "-", "t3"], ["and", ["q", "?z", "?y"]]]]))
+    # the WHOLE precondition is not a conjunction: a disjunction, a single literal, a negation, a comparison, a quantifier
+    out.append(("P2", ["or", ["p", "?x"], ["not", ["q", "?x", "?y"]], [">=", ["f", "?x"], "5"]]))
+    out.append(("P2", ["or", ["p", "?x"], ["and", ["p", "?y"], ["r"]]]))
+    out.append(("P2", ["or", ["=", "?x", "?y"], ["q", "?x", "?y"]]))
+    out.append(("P1", ["p", "?x"]))
+    out.append(("P1", ["not", ["p", "?x"]]))
+    out.append(("P1", [">=", ["f", "?x"], "1"]))
+    out.append(("P1", ["forall", ["?z", "-", "t1"], ["or", ["p", "?z"], ["q", "?x", "?z"]]]))
     return out
 
 
